@@ -18,11 +18,10 @@
 (*            buckets  Head.numNativeHistogramBuckets }  MetricsOnAppend    *)
 (*            apps     headMetrics.activeAppenders  Appender ++, Commit /   *)
 (*                                           Rollback (also of an initAppender) -- *)
-(* and two more actions of tsdb.DB:                                         *)
+(* and one more action of tsdb.DB:                                         *)
 (*   EvictSel(S)   DB.CompactSelectedSeries: block for the series, then     *)
 (*                 Head.truncateSelectedSeries -> gcSeries                  *)
-(*   EvictStale    DB.CompactStaleHead (series whose newest in-order sample *)
-(*                 is a staleness marker and that hold no out-of-order data)*)
+(*   (DB.CompactStaleHead is Db.tla's CompactStale.)                        *)
 (*                                                                         *)
 (* Every step of Db.tla is followed by the transcription of what the code   *)
 (* does to the counters in that call (CUpdate).  Want is the recount from   *)
@@ -85,28 +84,25 @@ TypedLast(q, i, prevTy) ==
        IN IF i = Len(q) THEN [t |-> x.t, v |-> x.v, ty |-> ty] ELSE TypedLast(q, i + 1, ty)
 
 -----------------------------------------------------------------------------
-(* Eviction: DB.CompactSelectedSeries / DB.CompactStaleHead *)
+(* Eviction of chosen series: DB.CompactSelectedSeries (Db.tla has DB.CompactStaleHead as CompactStale; this is the same
+   transition for a caller-chosen set of series without out-of-order data) *)
 
 Evictable(s) == s \in cs /\ ooh[s] = <<>> /\ oom[s] = {} /\ ino[s] # <<>>
 
-EvictCore(S, name) ==
+EvictSel(S) ==
+  /\ "EvictSel" \in Acts
   /\ NoOpenApp
-  /\ hInit /\ hMin >= 0          \* (compactHeadViewLocked aligns its first slice with a truncating division)
-  /\ S # {}
+  /\ hInit
+  /\ S # {} /\ \A s \in S : Evictable(s)
   /\ blk' = [s \in Series |-> IF s \in S THEN blk[s] \cup {x \in Range(ino[s]) : x.t \notin hdel[s] /\ x.t >= hMin} ELSE blk[s]]
   /\ ino' = [s \in Series |-> IF s \in S THEN <<>> ELSE ino[s]]
   \* the full-range tombstone record makes replay forget the series and everything logged for it so far
   /\ wino' = [s \in Series |-> IF s \in S THEN <<>> ELSE wino[s]]
+  /\ wgone' = wgone \cup UNION {{x.t : x \in Range(wino[s])} : s \in S}
   /\ hdel' = [s \in Series |-> IF s \in S THEN {} ELSE hdel[s]]
   /\ htomb' = [s \in Series |-> IF s \in S THEN {} ELSE htomb[s]]
   /\ UNCHANGED <<ooh, oom, oghost, hInit, hMin, hMax, minValid, blkMax, oooSeen, app, stored, kfset, kindv>>
-  /\ Step([a |-> name, S |-> SetToSeq(S), exp |-> ExpAll(stored)])
-
-EvictSel(S) == /\ "EvictSel" \in Acts
-               /\ \A s \in S : Evictable(s)
-               /\ EvictCore(S, "EvictSel")
-EvictStale == /\ "EvictStale" \in Acts
-              /\ EvictCore({s \in Series : Evictable(s) /\ IsStaleS(lastS[s])}, "EvictStale")
+  /\ Step([a |-> "EvictSel", S |-> SetToSeq(S), exp |-> ExpAll(stored)])
 
 -----------------------------------------------------------------------------
 (* What each call does to the counters *)
@@ -151,7 +147,7 @@ CCase(r) ==
     [] r.a = "CompactOOO" ->
          \* truncateOOO -> gc only when out-of-order chunks were compacted
          IF \E s \in Series : OOOAll(s) # {} THEN Gone({s \in cs : ~HasData(ino', ooh', oom', s)}) ELSE CSame /\ cnt' = cnt
-    [] r.a \in {"EvictSel", "EvictStale"} -> Gone({s \in Series : ino[s] # <<>> /\ ino'[s] = <<>>})
+    [] r.a \in {"EvictSel", "CompactStale"} -> Gone({s \in Series : ino[s] # <<>> /\ ino'[s] = <<>>})
     [] r.a = "Reopen" ->
          \* replay rebuilds every series that still has data and counts as it appends
          /\ cs' = {s \in Series : HasData(ino', ooh', oom', s)}
@@ -159,22 +155,31 @@ CCase(r) ==
          /\ cnt' = Want(cs', lastS', app')
     [] OTHER -> CSame /\ cnt' = cnt
 
+\* a Commit: how many of the appender's pending samples were not stored (rejected by the commit-time re-check or exact
+\* duplicates) -- lets the harness recognise KF-C52-3 by its shape
+Dropped(r) ==
+  IF r.a # "Commit" THEN 0
+  ELSE LET RECURSIVE Sum(_)
+           Sum(X) == IF X = {} THEN 0
+                     ELSE LET s == CHOOSE s \in X : TRUE IN
+                          (Len(ino'[s]) - Len(ino[s])) + Cardinality((Range(ooh'[s]) \cup oom'[s]) \ (Range(ooh[s]) \cup oom[s])) + Sum(X \ {s})
+       IN Len(app[r.app].pend) - Sum(Series)
+
 CUpdate ==
   IF hist' = hist THEN UNCHANGED cvars
   ELSE /\ CCase(hist'[Len(hist')])
-       /\ chist' = Append(chist, Want(cs', lastS', app'))
+       /\ chist' = Append(chist, Want(cs', lastS', app') @@ [dropped |-> Dropped(hist'[Len(hist')])])
 
 \* (a history may start on a head that already holds samples: Db.tla PreT)
 CInit == /\ Init
          /\ cs = {s \in Series : ino[s] # <<>>}
          /\ lastS = [s \in Series |-> IF ino[s] # <<>> THEN TypedLast(ino[s], 1, "none") ELSE NoneS]
          /\ cnt = Want(cs, lastS, app)
-         /\ chist = <<cnt>>
+         /\ chist = <<cnt @@ [dropped |-> 0]>>
 
 CNext == /\ \/ Next
             \/ /\ nops < MaxOps /\ kindv = "any"
-               /\ \/ \E S \in (SUBSET Series) \ {{}} : EvictSel(S)
-                  \/ EvictStale
+               /\ \E S \in (SUBSET Series) \ {{}} : EvictSel(S)
          /\ CUpdate
 
 CSpec == CInit /\ [][CNext]_allvars
@@ -197,10 +202,13 @@ Beh == [h |-> hist', c |-> chist']
 CClass ==
   LET r == hist'[Len(hist')] IN
   IF r.a = "Commit" THEN <<r.a, app[r.app].st, Len(app[r.app].pend),
-                           {<<IsStaleS(lastS[s]), IsHistS(lastS[s]), IsStaleS(lastS'[s]), IsHistS(lastS'[s]), Bk(lastS[s]) = Bk(lastS'[s])>> :
+                           \* per series: the state before, then type / staleness / bucket count of every sample stored, in order
+                           {<<IsStaleS(lastS[s]), IsHistS(lastS[s]), Bk(lastS[s]),
+                              [i \in 1..(Len(ino'[s]) - Len(ino[s])) |->
+                                 LET x == ino'[s][Len(ino[s]) + i] IN <<x.ty, x.v = 0, Bk(x)>>]>> :
                                s \in {s \in Series : Len(ino'[s]) > Len(ino[s])}},
                            ooh' # ooh, r.kf>>
-  ELSE IF r.a \in {"Compact", "CompactOOO", "EvictSel", "EvictStale"} THEN
+  ELSE IF r.a \in {"Compact", "CompactOOO", "EvictSel", "CompactStale"} THEN
        <<r.a, {<<IsStaleS(lastS[s]), IsHistS(lastS[s]), ino[s] = <<>> >> : s \in cs \ cs'}, cs' = {}, Cardinality(cs')>>
   ELSE IF r.a = "Reopen" THEN <<r.a, Cardinality(cs \ cs'), cnt.stale, cnt'.stale, cnt.hist, cnt'.hist, lastS' = lastS>>
   ELSE IF r.a = "Append" THEN <<r.a, r.ret, r.s \in cs, r.s \in cs', app[r.app].st>>
